@@ -53,7 +53,7 @@ Definition judge_text (fam : Z) (cfg : list Z) (op : Z) (args res : list Z) : ve
   let a := nth0 args 0 in
   let exact (e : list Z) := mkV (list_eqb e res) e true in
   if Z.eqb op OP_hexfmt || Z.eqb op OP_binfmt || Z.eqb op OP_hexparse || Z.eqb op OP_binparse then exact [a] else
-  if Z.eqb op OP_decfmt then
+  if Z.eqb op OP_decfmt || Z.eqb op OP_streamfmt then       (* streamfmt: the same expansion through operator<< *)
     (if Z.eqb fam 4 then exact (dec_of_Z (sgn n a)) else
      if Z.eqb fam 3 then exact (fx_dec_string n (nth0 cfg 1) a) else mkV false [] false) else
   if Z.eqb op OP_decparse then
